@@ -267,15 +267,23 @@ def gen_scale_linear(quick: bool) -> List[Method]:
                         if cm is not None and coeffs_ok_for(pt, cm):
                             out.append((it, pt, cm))
     # the same functions written with negated numerators and a negative denominator
+    # (every non-empty subset of the scales negated for n <= 3 -- the sign of a slope is the sign of
+    #  factor/denominator, also when scales of both spellings are mixed; all scales negated for n = 4)
     for it, pt in pairs[:4]:
         bk = BREAKS[it]
-        for slopes in seqs[:len(S1) + len(S1) ** 2]:
-            cm = scale_linear_cm(bk, slopes, 0, "co", True)
-            if cm is not None and coeffs_ok_for(pt, cm):
-                for sc in cm["i2p"]:
-                    sc["num"] = [-c for c in sc["num"]]
-                    sc["den"] = [-c for c in sc["den"]]
-                out.append((it, pt, cm))
+        for slopes in seqs:
+            n = len(slopes)
+            masks = [m for m in itertools.product((False, True), repeat=n) if any(m)] if n <= 3 else [(True,) * n]
+            if quick and n == 4 and slopes not in seqs[-3:]:
+                continue
+            for mask in masks:
+                cm = scale_linear_cm(bk, slopes, 0, "co", True)
+                if cm is not None and coeffs_ok_for(pt, cm):
+                    for sc, neg in zip(cm["i2p"], mask):
+                        if neg:
+                            sc["num"] = [-c for c in sc["num"]]
+                            sc["den"] = [-c for c in sc["den"]]
+                    out.append((it, pt, cm))
     # scales with a gap between them, and a decreasing jump
     for it, pt in (("u8", "A_INT32"), ("i8", "A_FLOAT32")):
         a = BREAKS[it]
@@ -548,6 +556,10 @@ class Evaluator:
 
     def viol(self, op: str, mode: str, vpart: Dict[str, Any], detail: str) -> None:
         key = f"C07/{self.cat}/{op}/{mode}"
+        if self.cat == "SCALE-LINEAR":
+            signs = {(s.get("den") or [1])[0] < 0 for s in self.cm["i2p"]}
+            if len(signs) == 2:
+                key += "/mixed-denominator-signs"  # scales written with positive and with negative denominators
         case = {"it": self.it, "pt": self.pt, "cm": self.cm}
         case.update(vpart)
         self.found.append((key, case, f"{self.cat} {self.it}->{self.pt}: {detail}"))
@@ -731,20 +743,135 @@ def eval_method(part: Part, it: str, pt: str, cm: Dict[str, Any], cmobj: Any, fu
         part.violation(key, case, detail)
 
 
+# ---------------------------------------------------------------------------------------------
+# query sequences: the four API functions are functions of the value alone
+# ---------------------------------------------------------------------------------------------
+OPS = {"valid-internal": "is_valid_internal_value", "i2p": "convert_internal_to_physical",
+       "valid-physical": "is_valid_physical_value", "p2i": "convert_physical_to_internal"}
+
+
+def outcome(obj: Any, op: str, v: Any) -> Tuple[Any, ...]:
+    st, r = call(getattr(obj, OPS[op]), v)
+    if st != "ok":
+        return ("raises", type(r).__name__)
+    if isinstance(r, (bytes, bytearray)):
+        return ("ok", "bytes", bytes(r))
+    return ("ok", type(r).__name__, r if isinstance(r, (int, float, str, bool, type(None))) else repr(r))
+
+
+def twins(v: Any) -> List[Any]:
+    """the value and the numerically equal value of the other python number type (5 / 5.0: equal, same hash)"""
+    if isinstance(v, bool) or not isinstance(v, (int, float)):
+        return [v]
+    if isinstance(v, int):
+        return [v, float(v)]
+    return [v, int(v)] if v == int(v) else [v]
+
+
+def cloner(pristine: Any) -> Any:
+    """-> function returning a fresh copy of the never-queried object (pickle round trip; deepcopy as fallback)"""
+    import copy
+    import pickle
+    try:
+        blob = pickle.dumps(pristine, -1)
+        pickle.loads(blob)
+        return lambda: pickle.loads(blob)
+    except Exception:  # noqa: BLE001
+        copy.deepcopy(pristine)
+        return lambda: copy.deepcopy(pristine)
+
+
+def history_queries(it: str, pt: str, cm: Dict[str, Any], pristine: Any, small: bool = False) -> Tuple[List[List[Tuple[str, Any]]], List[Tuple[str, Any]]]:
+    """-> (twin groups, all queries).  Values: one internal value that must be valid, one that must not, 0; the image of
+    the valid one, a value far outside, 0 (texts: a table text and an unknown one); each with its int/float twin."""
+    ref = R.compile_cm(cm, base_type(it), pt)
+    xs = internal_values(it, cm)
+    num = [x for x in xs if R.is_num(x) and (not isinstance(x, float) or x == int(x))]
+    good = next((x for x in num if ref.valid_internal(x) is True and x != 0), None)
+    bad = next((x for x in num if ref.valid_internal(x) is False and x != 0), None)
+    ivals: List[Any] = []
+    if num:
+        ivals = [v for v in ((good, bad) if small else (good, bad, 0)) if v is not None]
+    else:
+        ivals = xs[:2]
+    pvals: List[Any] = []
+    if cm["cat"] == "TEXTTABLE":
+        pvals = [cm["i2p"][0]["const"], "zzz"]
+    elif pt in R.NUM_TYPES:
+        if good is not None:
+            st, img = call(cloner(pristine)().convert_internal_to_physical, good)
+            if st == "ok" and R.is_num(img) and float(img) == int(img):
+                pvals.append(int(img) if pt in R.INT_TYPES else float(img))
+        pvals += [0] if small else [100000, 0]
+    else:
+        pvals = xs[:2]
+    groups: List[List[Tuple[str, Any]]] = []
+    for v in ivals:
+        groups.append([(op, t) for t in twins(v) for op in ("valid-internal", "i2p")])
+    for v in pvals:
+        groups.append([(op, t) for t in twins(v) for op in ("valid-physical", "p2i")])
+    allq = [q for g in groups for q in g]
+    return groups, allq
+
+
+def history_pair(pristine: Any, q1: Tuple[str, Any], q2: Tuple[str, Any]) -> Tuple[Any, Any]:
+    """-> (answer to q2 on a fresh object, answer to q2 on an object that answered q1 before)"""
+    clone = cloner(pristine)
+    fresh = outcome(clone(), q2[0], q2[1])
+    o = clone()
+    outcome(o, q1[0], q1[1])
+    return fresh, outcome(o, q2[0], q2[1])
+
+
+def history_method(part: Part, it: str, pt: str, cm: Dict[str, Any], pristine: Any, all_pairs: bool, small: bool = False) -> None:
+    """Every ordered pair of queries (within each twin group; all pairs over all queries if all_pairs) is put to a fresh
+    copy of the never-queried object; the second answer must equal the answer a fresh object gives."""
+    try:
+        clone = cloner(pristine)
+    except Exception:  # noqa: BLE001
+        part.count("history_uncopyable_methods")
+        return
+    groups, allq = history_queries(it, pt, cm, pristine, small and not all_pairs)
+    base: Dict[Any, Any] = {}
+    for q in allq:
+        base[(q[0], vkey(q[1]))] = outcome(clone(), q[0], q[1])
+    pairs = [(a, b) for a in allq for b in allq] if all_pairs else [(a, b) for g in groups for a in g for b in g]
+    for q1, q2 in pairs:
+        o = clone()
+        outcome(o, q1[0], q1[1])
+        got = outcome(o, q2[0], q2[1])
+        part.count("evaluations")
+        part.count("history_sequences")
+        want = base[(q2[0], vkey(q2[1]))]
+        if got != want:
+            part.count("history_dependent_answers")
+            part.violation(f"C07/{cm['cat']}/history/{q2[0]}-after-{q1[0]}",
+                           {"it": it, "pt": pt, "cm": cm, "seq": [[q1[0], enc(q1[1])], [q2[0], enc(q2[1])]]},
+                           f"{cm['cat']} {it}->{pt}: {OPS[q2[0]]}({short(q2[1])}) answers {want} on a fresh object but {got} "
+                           f"after {OPS[q1[0]]}({short(q1[1])}) on the same object")
+    part.count("history_methods_all_pairs" if all_pairs else "history_methods_twin_pairs")
+
+
 def load_methods(methods: List[Method]) -> List[Any]:
     dops = [dop_spec(f"d{i}", it, pt, cm) for i, (it, pt, cm) in enumerate(methods)]
     loaded = load_compu_db(dops)
     return [loaded[f"d{i}"].compu_method for i in range(len(methods))]
 
 
-def unit_fn(unit: Tuple[str, bool, List[Method]]) -> Part:
+HISTORY_ALL_PAIRS_EVERY = (10, 40)  # (thorough, quick): every n-th configuration of a category gets all ordered query pairs
+
+
+def unit_fn(unit: Tuple[Any, ...]) -> Part:
     import odxtools.exceptions as oe
     oe.strict_mode = True
-    name, full, methods = unit
+    name, full, methods = unit[:3]
+    first_index = unit[3] if len(unit) > 3 else 0
+    every = HISTORY_ALL_PAIRS_EVERY[0 if full else 1]
     part = Part()
     objs = load_methods(methods)
     part.count("documents_loaded")
-    for (it, pt, cm), obj in zip(methods, objs):
+    for k, ((it, pt, cm), obj) in enumerate(zip(methods, objs)):
+        history_method(part, it, pt, cm, obj, all_pairs=((first_index + k) % every == 0), small=not full)  # before any other query
         eval_method(part, it, pt, cm, obj, full)
     if methods:
         it, pt, cm = methods[len(methods) // 2]
@@ -764,14 +891,14 @@ def _drop_scratch() -> None:
 def run(ctx: Ctx) -> None:
     quick = ctx.quick
     full = not quick
-    units: List[Tuple[str, bool, List[Method]]] = []
+    units: List[Tuple[Any, ...]] = []
     sizes: Dict[str, int] = {}
     for cat, gen in GENERATORS:
         ms = gen(quick)
         sizes[cat] = len(ms)
         chunk = 40 if cat in ("SCALE-LINEAR", "LINEAR", "TAB-INTP") else 60
         for i in range(0, len(ms), chunk):
-            units.append((f"{cat}#{i // chunk}", full, ms[i:i + chunk]))
+            units.append((f"{cat}#{i // chunk}", full, ms[i:i + chunk], i))
     ctx.bounds = {
         "methods_per_category": sizes,
         "internal_values": {"u8": "all 256", "i8": "all 256", "u16": f"boundary set ({len(U16_SET)} values + every limit +-1)",
@@ -780,6 +907,12 @@ def run(ctx: Ctx) -> None:
                                 + "; every limit image and every COMPU-PHYS-TO-INTERNAL limit +-{0, 1/2, 1}; type probes"),
         "linear": "offset {-3,0,1,2.5} x factor {-2,-1,-0.5,0,0.5,1,3} x denominator " + ("{1,4}" if quick else "{1,2,4}") + " (fractional literals only for float physical types) x 6 limit shapes (none, [a,b], (a,b), [a,inf), (a,b] with bare upper value, (INFINITE-with-value, b))",
         "scale_linear": "1..4 adjacent scales, slopes from {-2,-1,0,1,3,1/2} (n<=2), {-1,0,1,3}^3, {-1,0,2}^4; continuous and with jumps of +7; limit styles " + ("co, cc" if quick else "co, cc, oc, inf") + "; zero slopes with and without COMPU-INVERSE-VALUE",
+        "query_sequences": ("every ordered pair of queries (4 API functions x value, incl. the same query twice) within each twin group "
+                            "{v as int, v as float} for " + ("2 internal values (one valid, one invalid) and 2 physical values (image of the valid one, 0" if quick else
+                            "3 internal values (one valid, one invalid, 0) and 3 physical values (image of the valid one, 100000, 0")
+                            + "; texts: a table text and an unknown one) on EVERY configuration; all ordered "
+                            f"pairs over all these queries on every {HISTORY_ALL_PAIRS_EVERY[1 if quick else 0]}th configuration of a category; "
+                            "each sequence on a fresh copy (pickle round trip) of the never-queried loaded object, second answer compared with a fresh object's"),
         "tab_intp": "2..4 points, all y sequences over a 4-value menu (increasing, decreasing, non-monotone, plateaus)",
         "rat_func": ("5 numerators x 4 denominators x 4 limit shapes" if quick else "7 numerators (degree <= 2) x 5 denominators (absent, degree 0, degree 1) x 6 limit shapes")
                     + " x {no inverse, exact inverse, restricted / unrelated inverse}; SCALE-RAT-FUNC: 1..3 scales from 5 segment templates",
@@ -809,6 +942,8 @@ def run(ctx: Ctx) -> None:
     ctx.guard("exact ties were met (and excused)", c.get("ties_i2p", 0) > 0)
     ctx.guard("injective and monotone continuous methods present", c.get("injective_methods", 0) > 10 and c.get("monotone_continuous_methods", 0) > 10)
     ctx.guard("more than 1000 methods", c.get("methods", 0) > 1000)
+    ctx.guard("query sequences were run (twin pairs on all methods, all pairs on a sample)",
+              c.get("history_sequences", 0) > 10000 and c.get("history_methods_all_pairs", 0) > 50 and c.get("history_uncopyable_methods", 0) == 0)
     ctx.sets.pop("categories", None)
 
 
@@ -821,6 +956,14 @@ def replay(case: Any) -> List[Tuple[str, str]]:
     it, pt, cm = case["it"], case["pt"], case["cm"]
     obj = load_methods([(it, pt, cm)])[0]
     part = Part()
+    if "seq" in case:
+        (op1, v1), (op2, v2) = case["seq"]
+        q1, q2 = (op1, dec(v1)), (op2, dec(v2))
+        fresh, got = history_pair(obj, q1, q2)
+        if fresh != got:
+            return [(f"C07/{cm['cat']}/history/{op2}-after-{op1}",
+                     f"{OPS[op2]}({short(q2[1])}) answers {fresh} on a fresh object but {got} after {OPS[op1]}({short(q1[1])})")]
+        return []
     ev = Evaluator(part, it, pt, cm, obj)
     if "x" in case:
         ev.run([dec(case["x"])], derive_ps="images")
